@@ -20,6 +20,7 @@ const modPath = "github.com/jech/galene"
 type guardInfo struct {
 	mu     string
 	fields map[string]bool
+	elems  map[string]bool // slice fields whose ELEMENTS are guarded too (declared `f[*]`)
 }
 
 // Eng holds the loaded program and all contracts.
@@ -361,8 +362,12 @@ func load(repo, verifDir string, patterns []string) (*Eng, error) {
 		}
 		for _, g := range sf.Guarded {
 			key := sf.Pkg + "." + g.Type
-			gi := &guardInfo{mu: g.Mu, fields: map[string]bool{}}
+			gi := &guardInfo{mu: g.Mu, fields: map[string]bool{}, elems: map[string]bool{}}
 			for _, f := range g.Fields {
+				if strings.HasSuffix(f, "[*]") {
+					f = strings.TrimSuffix(f, "[*]")
+					gi.elems[f] = true
+				}
 				gi.fields[f] = true
 			}
 			e.guarded[key] = gi
